@@ -103,6 +103,15 @@ func (m c15) run(c *Ctx, order []string, types map[string][]jsonapi.Rel, nilMaps
 	if after := schemaFingerprint(sc); after != before {
 		c.Violate("check-modifies-schema", "before %s\nafter  %s", before, after)
 	}
+	// a second call on the same schema answers the same (nothing is remembered between calls)
+	var errs2 []error
+	if pi := Guard(func() { errs2 = sc.Check() }); pi != nil {
+		c.Violate("panic@"+pi.Frame+"/"+panicClass(pi.Val)+"/second-call", "second Check on %s: %s", before, pi)
+		return
+	}
+	if len(errs2) != len(errs) {
+		c.Violate("second-call-differs", "Check returned %d errors, then %d on the same schema %s", len(errs), len(errs2), before)
+	}
 	if want == 0 {
 		c.Count("coherent_schemas")
 	} else {
